@@ -259,6 +259,40 @@ def tuple_index_chain_cases(rng, _n):
     return cases
 
 
+def repeated_name_chain_cases(rng, _n):
+    """Field paths that name the same field (or index) again further down: `inner.inner.id`, `0.0`, `next.next.value` - every step counts."""
+    import tgen
+    cases = []
+    k = 0
+    decl = ("#[derive(Debug, Clone)] pub struct K3 { pub id: i32, pub inner: i32 }\n#[derive(Debug, Clone)] pub struct M3 { pub inner: K3, pub id: i32 }\n"
+            "#[derive(Debug, Clone)] pub struct N3 { pub inner: M3, pub id: i32, pub t: ((i32, i32), i32) }\nimpl M3 { pub fn inner(&self) -> &K3 { &self.inner } }")
+    adt = lambda ctor, names, vals: "(adt %s (names %s) (vals %s))" % (tgen.hexs(ctor), " ".join(tgen.hexs(n) for n in names), " ".join(vals))
+    val = "N3 { inner: M3 { inner: K3 { id: 3, inner: 4 }, id: 2 }, id: 1, t: ((7, 8), 9) }"
+    sx = adt("N3", ["inner", "id", "t"], [adt("M3", ["inner", "id"], [adt("K3", ["id", "inner"], ["(int 3)", "(int 4)"]), "(int 2)"]), "(int 1)", "(tuple (tuple (int 7) (int 8)) (int 9))"])
+    meanings = "(meanings %s (m %s %s))" % (" ".join("(v %s (int %d))" % (tgen.hexs(str(x)), x) for x in range(0, 10)), tgen.hexs("inner"), tgen.hexs("field:inner"))
+    for pt in ("N3 { inner.inner.id: 3, .. }", "N3 { inner.inner.id: 2, .. }", "N3 { inner.id: 2, inner.inner.id: 3, inner.inner.inner: 4, .. }", "N3 { inner.inner.inner: 4, .. }", "N3 { inner.inner.inner: 3, .. }",
+               "_ { inner.inner.id: 3, id: 1, .. }", "_ { inner.inner.id: 2, .. }", "N3 { inner.inner().id: 3, .. }", "N3 { inner.inner().inner: 2, .. }", "N3 { t.0.0: 7, t.0.1: 8, .. }", "N3 { t.0.0: 8, .. }",
+               "N3 { id: 1, inner.id: 1, .. }", "N3 { inner.inner.id: > 2, inner.id: < 3, id: 1, .. }"):
+        c = t3.Case()
+        c.id = k
+        k += 1
+        c.forms = {"repeated-name-chain": 1}
+        c.perturbed = True
+        c.meanings = meanings
+        t3.finish_case(c, decl, "N3", val, sx, pt)
+        cases.append(c)
+    for (pt, v_, sx_) in (("(0.0: 7, _)", "((7, 8), 9)", "(tuple (tuple (int 7) (int 8)) (int 9))"), ("(0.0: 8, _)", "((7, 8), 9)", "(tuple (tuple (int 7) (int 8)) (int 9))"), ("(_, 1.1: 6)", "(0, (5, 6))", "(tuple (int 0) (tuple (int 5) (int 6)))")):
+        c = t3.Case()
+        c.id = k
+        k += 1
+        c.forms = {"repeated-name-chain": 1}
+        c.perturbed = True
+        c.meanings = meanings
+        t3.finish_case(c, "", "((i32, i32), i32)" if v_.startswith("((") else "(i32, (i32, i32))", v_, sx_, pt)
+        cases.append(c)
+    return cases
+
+
 def method_argument_cases(rng, _n):
     """Method calls with several arguments in field paths: the arguments reach the call in the order written."""
     import tgen
@@ -461,7 +495,8 @@ def check(ck, aspect, theorems, t2_parts=("body", "status")):
                 relevant.append(("passes-but-does-not-match", "the assertion returned normally although the value does not satisfy the pattern", m))
             elif aspect == "C02" and kind == "verdict" and gk == "fail":
                 relevant.append(("fails-but-matches", "the assertion failed although the value satisfies the pattern", m))
-            elif aspect == "C03" and kind == "entries":
+            elif aspect == "C03" and kind in ("entries", "verdict"):
+                # a wrong verdict is a wrong set of entries too: a failing leaf without an entry, or an entry for a sub-pattern that matched
                 relevant.append(("wrong-entries", "the report's entries are not the failure frontier (one entry per failing leaf / failed shape, nothing else)", m))
             elif aspect == "C05" and kind == "actual-text":
                 relevant.append(("wrong-actual-text", "an entry's 'got' text is not the Debug form of the sub-value at that sub-pattern's path", m))
@@ -494,6 +529,7 @@ def check(ck, aspect, theorems, t2_parts=("body", "status")):
                                 ("wildcard-struct-sibling", wildcard_shadow_cases, "a wildcard struct next to a sibling field of the same name"),
                                 ("guard-temporaries", guard_temp_cases, "field paths through guard-returning methods: each assertion releases its borrow before the next"),
                                 ("tuple-index-chains", tuple_index_chain_cases, "chains of tuple indices in field paths (`c.0.1` is one float literal token)"),
+                                ("repeated-name-chains", repeated_name_chain_cases, "field paths that name the root field (or index) again further down"),
                                 ("method-arguments", method_argument_cases, "method calls with several arguments in field paths: arguments in the order written"),
                                 ("set-after-failure", set_after_failure_cases, "set patterns evaluated when the report already holds entries, and before further failing siblings"),
                                 ("invocation-context", invocation_context_cases, "the same assertion after other assertions, in expression position, as a match arm, in loops / closures, next to caller locals named like helpers"),
@@ -511,7 +547,7 @@ def check(ck, aspect, theorems, t2_parts=("body", "status")):
                 key, text = "passes-but-does-not-match", "the assertion returned normally although the value does not satisfy the pattern"
             elif aspect == "C02" and (kind == "verdict" and gk == "fail" or kind == "crashed"):
                 key, text = "fails-but-matches", "the assertion failed although the value satisfies the pattern"
-            elif aspect == "C03" and kind == "entries":
+            elif aspect == "C03" and kind in ("entries", "verdict"):
                 key, text = "wrong-entries", "the report's entries are not the failure frontier"
             elif aspect == "C19" and kind == "label":
                 key, text = "wrong-label", "an entry's statement about the expected side does not agree with the pattern as written"
